@@ -288,7 +288,7 @@ pub fn suite_tryinit(dir: &str, seed: u64, thorough: bool, st: &mut Stats) {
 pub struct CompressCase {
     pub cfg: crate::chunking::Cfg,
     pub hashlen: usize,
-    pub comp: Option<u32>, // brotli level
+    pub comp: Option<(u32, u32)>, // (CompressionType value: 1 lzma, 2 zstd, 3 brotli; level)
     pub meta: BTreeMap<String, Vec<u8>>,
     pub src: Vec<u8>,
 }
@@ -299,7 +299,7 @@ pub fn run_create_archive(c: &CompressCase, buffers: usize, sched: Vec<Ev>) -> R
         num_chunk_buffers: buffers,
         chunk_hash_length: c.hashlen,
         temporary_file_override: None,
-        compression: c.comp.map(|l| Compression::brotli(l).unwrap()),
+        compression: c.comp.map(|(t, l)| compression_of(t, l)),
         metadata: c.meta.clone(),
     };
     let src = c.src.clone();
@@ -319,10 +319,48 @@ pub fn run_create_archive(c: &CompressCase, buffers: usize, sched: Vec<Ev>) -> R
     match r { Ok(x) => x, Err(_) => Err("PANIC".into()) }
 }
 
-fn brotli_compress(level: u32, data: &[u8]) -> Vec<u8> {
-    // the codec is an oracle for the model: obtained through bitar's own public API
-    let c = bitar::Chunk::from(data.to_vec()).compress(Some(Compression::brotli(level).unwrap())).unwrap();
+pub fn compression_of(t: u32, level: u32) -> Compression {
+    match t {
+        1 => Compression::lzma(level).unwrap(),
+        2 => Compression::zstd(level).unwrap(),
+        _ => Compression::brotli(level).unwrap(),
+    }
+}
+
+pub fn max_level(t: u32) -> u32 { match t { 1 => 9, 2 => 22, _ => 11 } }
+
+/// the codecs are oracles for the model: compression is obtained through bitar's own public API
+pub fn codec_compress(t: u32, level: u32, data: &[u8]) -> Vec<u8> {
+    let c = bitar::Chunk::from(data.to_vec()).compress(Some(compression_of(t, level))).unwrap();
     c.data().to_vec()
+}
+
+fn brotli_compress(level: u32, data: &[u8]) -> Vec<u8> { codec_compress(3, level, data) }
+
+struct Lim { buf: Vec<u8>, limit: usize }
+impl std::io::Write for Lim {
+    fn write(&mut self, d: &[u8]) -> std::io::Result<usize> {
+        if d.len() > self.limit - self.buf.len() { return Err(std::io::Error::new(std::io::ErrorKind::InvalidData, "too large")); }
+        self.buf.extend_from_slice(d);
+        Ok(d.len())
+    }
+    fn flush(&mut self) -> std::io::Result<()> { Ok(()) }
+}
+
+/// independent decompression (the codec crates directly), output bounded like the implementation's
+pub fn codec_decompress(t: u32, p: &[u8], limit: usize) -> Option<Vec<u8>> {
+    let mut out = Lim { buf: vec![], limit };
+    match t {
+        1 => {
+            use std::io::Write;
+            let mut f = lzma::LzmaWriter::new_decompressor(&mut out).ok()?;
+            f.write_all(p).ok()?;
+            f.finish().ok()?;
+        }
+        2 => { zstd::stream::copy_decode(p, &mut out).ok()?; }
+        _ => { let mut inp = p; brotli_decompressor::BrotliDecompress(&mut inp, &mut out).ok()?; }
+    }
+    Some(out.buf)
 }
 
 /// independent decoder (C11): parse the produced archive without bitar's reader and check every clause
@@ -374,9 +412,7 @@ pub fn c11_oracle(c: &CompressCase, bytes: &[u8]) -> Result<(), String> {
         if raw && c.comp.is_some() { /* stored raw because compression did not help */ }
         if !raw {
             if c.comp.is_none() { return Err("compressed payload in an archive without compression".into()); }
-            let mut outv = vec![];
-            let mut inp = p;
-            brotli_decompress(&mut inp, &mut outv).map_err(|_| "stored payload does not decompress")?;
+            let outv = codec_decompress(c.comp.unwrap().0, p, x.source_size as usize).ok_or("stored payload does not decompress")?;
             if b2(&outv)[..x.checksum.len()] != x.checksum[..] { return Err("stored payload decompresses to other data".into()); }
         } else if b2(p)[..x.checksum.len()] != x.checksum[..] { return Err("raw stored payload has another hash".into()); }
     }
@@ -386,17 +422,11 @@ pub fn c11_oracle(c: &CompressCase, bytes: &[u8]) -> Result<(), String> {
         a => [c.cfg.bits, c.cfg.min as u32, c.cfg.max as u32, c.cfg.win as u32, c.hashlen as u32, if a == 'B' { 0 } else { 1 }],
     };
     if d.params != Some(want_p) { return Err(format!("chunker parameters recorded {:?}, requested {:?}", d.params, want_p)); }
-    let want_c = match c.comp { None => [0, 0], Some(l) => [3, l] };
+    let want_c = match c.comp { None => [0, 0], Some((t, l)) => [t, l] };
     if d.comp != Some(want_c) { return Err("compression not recorded verbatim".into()); }
     let want_m: BTreeMap<Vec<u8>, Vec<u8>> = c.meta.iter().map(|(k, v)| (k.as_bytes().to_vec(), v.clone())).collect();
     if d.meta != want_m { return Err("metadata not recorded verbatim".into()); }
     Ok(())
-}
-
-fn brotli_decompress(inp: &mut &[u8], out: &mut Vec<u8>) -> Result<(), ()> {
-    // via bitar: CompressedChunk is not constructible publicly; decode through a one-chunk archive instead is
-    // heavy, so the harness links the decompressor crate bitar itself depends on.
-    brotli_decompressor::BrotliDecompress(inp, out).map_err(|_| ())
 }
 
 /// strict independent parser for the documented schema (canonical encodings as written by the writers)
@@ -485,7 +515,15 @@ pub fn gen_compress_case(rng: &mut Rng, big: bool) -> CompressCase {
         let k = match rng.below(3) { 0 => String::new(), 1 => "ключ".to_string(), _ => format!("key{}", rng.below(10)) };
         meta.insert(k, (0..rng.below(10)).map(|_| rng.next() as u8).collect());
     }
-    CompressCase { cfg, hashlen: *rng.pick(&[4usize, 8, 16, 33, 64]), comp: if rng.chance(1, 2) { None } else { Some(if rng.chance(1, 6) { rng.range(7, 11) } else { rng.range(1, 6) } as u32) }, meta, src }
+    CompressCase { cfg, hashlen: *rng.pick(&[4usize, 8, 16, 33, 64]), comp: gen_comp(rng), meta, src }
+}
+
+/// none / brotli / zstd / lzma at (mostly low, sometimes every) level
+pub fn gen_comp(rng: &mut Rng) -> Option<(u32, u32)> {
+    if rng.chance(2, 5) { return None; }
+    let t = *rng.pick(&[3u32, 3, 2, 1]);
+    let l = if rng.chance(1, 6) { rng.range(1, max_level(t) as u64) } else { rng.range(1, 6.min(max_level(t)) as u64) } as u32;
+    Some((t, l))
 }
 
 /// a chunk whose compressed form has exactly the chunk's own length (the boundary of the "store raw unless
@@ -506,7 +544,7 @@ pub fn equal_size_case(rng: &mut Rng) -> Option<CompressCase> {
     let d = find_equal_chunk(rng, level)?;
     let mut src = d.clone();
     if rng.chance(1, 2) { let extra: Vec<u8> = (0..d.len()).map(|_| rng.next() as u8).collect(); src.extend(extra); }
-    Some(CompressCase { cfg: crate::chunking::Cfg { algo: 'F', bits: 0, min: 0, max: d.len(), win: 0 }, hashlen: 64, comp: Some(level), meta: Default::default(), src })
+    Some(CompressCase { cfg: crate::chunking::Cfg { algo: 'F', bits: 0, min: 0, max: d.len(), win: 0 }, hashlen: 64, comp: Some((3, level)), meta: Default::default(), src })
 }
 
 pub fn compress_line(c: &CompressCase, archive: &[u8]) -> String {
@@ -516,14 +554,14 @@ pub fn compress_line(c: &CompressCase, archive: &[u8]) -> String {
     let mut tab = vec![];
     for (_, d) in &chunks {
         if seen.insert(d.clone()) {
-            let comp = match c.comp { Some(l) => hex(&brotli_compress(l, d)), None => "-".into() };
+            let comp = match c.comp { Some((t, l)) => hex(&codec_compress(t, l, d)), None => "-".into() };
             tab.push(format!("{}={}={}", hex(d), hex(&b2(d)), comp));
         }
     }
     let hh = if archive.len() >= 14 { header_hash_pair(archive) } else { "-".into() };
     let meta: Vec<String> = c.meta.iter().map(|(k, v)| format!("{}:{}", hex(k.as_bytes()), hex(v))).collect();
     format!("compress {} {} {} {} {} {} {} {}", c.cfg.line(), c.hashlen,
-        match c.comp { Some(l) => format!("3,{}", l), None => "-".into() },
+        match c.comp { Some((t, l)) => format!("{},{}", t, l), None => "-".into() },
         if meta.is_empty() { "-".into() } else { meta.join(";") },
         hex(&c.src), hex(&b2(&c.src)), hh, if tab.is_empty() { "-".into() } else { tab.join(";") })
 }
@@ -562,7 +600,7 @@ pub fn suite_compress(dir: &str, seed: u64, thorough: bool, st: &mut Stats) {
                     }
                     let line = compress_line(&c, &bytes);
                     if r == 0 {
-                        st.count(&format!("compress/{}/{}", c.cfg.algo, if c.comp.is_some() { "brotli" } else { "none" }));
+                        st.count(&format!("compress/{}/{}", c.cfg.algo, match c.comp { None => "none", Some((1, _)) => "lzma", Some((2, _)) => "zstd", _ => "brotli" }));
                         if bytes.len() > 200 { st.nontrivial_key(line.as_bytes()); }
                         st.sample(format!("compress {} hl={} comp={:?} src={}B", c.cfg.line(), c.hashlen, c.comp, c.src.len()));
                     }
@@ -587,7 +625,7 @@ pub fn replay(line: &str) -> Result<(), String> {
             let cfg = crate::chunking::Cfg::parse(&t[1..6]);
             let mut meta = BTreeMap::new();
             if t[8] != "-" { for e in t[8].split(';') { let p: Vec<&str> = e.split(':').collect(); meta.insert(String::from_utf8(unhex(p[0])).unwrap(), unhex(p[1])); } }
-            let c = CompressCase { cfg, hashlen: t[6].parse().unwrap(), comp: if t[7] == "-" { None } else { Some(t[7].split(',').nth(1).unwrap().parse().unwrap()) }, meta, src: unhex(t[9]) };
+            let c = CompressCase { cfg, hashlen: t[6].parse().unwrap(), comp: if t[7] == "-" { None } else { let q: Vec<u32> = t[7].split(',').map(|x| x.parse().unwrap()).collect(); Some((q[0], q[1])) }, meta, src: unhex(t[9]) };
             let a = run_create_archive(&c, 2, vec![])?;
             c11_oracle(&c, &a)?;
             let b = run_create_archive(&c, 64, vec![Ev::Read(1), Ev::Pending, Ev::Read(7)])?;
